@@ -373,6 +373,7 @@ def run(ctx) -> list[Inst]:
                         file=odd.func.module.relpath, line=getattr(odd.value, 'lineno', 0), props=props))
     insts += _id_keys(ctx)
     insts += _extensions(ctx)
+    insts += _file_layer(ctx)
     insts += _templates(ctx)
     return insts
 
@@ -593,6 +594,117 @@ def _extensions(ctx) -> list[Inst]:
                               'ok' if ok else 'violation',
                               msg='' if ok else f'.{ext} dispatches to {sorted(calls)}',
                               file=lf.module.relpath, line=lf.node.lineno, props=props))
+    return insts
+
+
+# ------------------------------------------------------------------------------------------------
+LIB_READ = {('json', 'load'), ('json', 'loads'), ('yaml', 'safe_load'), ('yaml', 'load')}
+LIB_WRITE = {('json', 'dump'), ('json', 'dumps'), ('yaml', 'dump'), ('yaml', 'safe_dump')}
+HOOK_KW = {'object_hook', 'object_pairs_hook', 'parse_float', 'parse_int', 'parse_constant', 'default', 'cls',
+           'skipkeys'}
+LAYOUT_KW = {'indent', 'sort_keys', 'ensure_ascii', 'separators', 'allow_nan', 'Dumper', 'Loader',
+             'default_flow_style', 'allow_unicode', 'width', 'encoding', 'explicit_start', 'explicit_end'}
+FILE_FUNCS = ['save_dict_to_json_file', 'save_dict_to_yaml_file', 'load_dict_from_yaml_file',
+              'load_dict_from_json_file']
+
+
+def _file_layer(ctx) -> list[Inst]:
+    """(viii) the file layer is transparent: what the codecs hand over is what the library writes, and
+    what the library reads is what the codecs get.  A value-rewriting hook (object_hook, parse_float,
+    default= ...) acts on EVERY nested mapping / number of the file - also on the free-form `extras`
+    dictionaries, whose keys and values it cannot tell from ids - so it cannot be an inverse of the
+    other direction."""
+    prog = ctx.prog
+    insts = []
+    props = ('C07', 'C10')
+    for fname in FILE_FUNCS:
+        if not prog.has_func(fname):
+            raise AnalysisError(f'file layer function {fname} missing')
+        f = prog.func(fname)
+        rel = f.module.relpath
+        cfg = ctx.cfg(f)
+        R = ctx.R(f)
+        reading = fname.startswith('load')
+        libcalls = []
+        for n in own_nodes(f.node):
+            if isinstance(n, ast.Call) and isinstance(n.func, ast.Attribute) and isinstance(n.func.value, ast.Name) \
+                    and (n.func.value.id, n.func.attr) in (LIB_READ if reading else LIB_WRITE):
+                libcalls.append(n)
+        construct = f'(viii) {fname}: the library call has no value-rewriting hook'
+        if not libcalls:
+            insts.append(Inst(RULE, fname, construct, 'unproven', msg='no json / yaml library call recognised',
+                              file=rel, line=f.node.lineno, props=props))
+            continue
+        for c in libcalls:
+            lib = f'{c.func.value.id}.{c.func.attr}'
+            bad = [k for k in c.keywords if k.arg in HOOK_KW]
+            odd = [k.arg for k in c.keywords if k.arg not in HOOK_KW and k.arg not in LAYOUT_KW]
+            verdict, msg = 'ok', lib
+            for k in bad:
+                v = k.value
+                local = isinstance(v, ast.Lambda) or (isinstance(v, ast.Name) and (
+                    prog.has_func(v.id) or v.id in f.module.functions)) or \
+                    (isinstance(v, ast.Constant) and v.value is True and k.arg == 'skipkeys')
+                if local:
+                    verdict = 'violation'
+                    msg = (f"{lib}(..., {k.arg}={stmt_text(v, 40)}) rewrites every nested object of the file, the "
+                           f"free-form extras dictionaries included: content that was saved does not come back "
+                           f"unchanged (e.g. extras keys / values that merely look like ids or numbers)")
+                    break
+                verdict = 'unproven'
+                msg = f'{lib} is given {k.arg}={stmt_text(v, 40)}'
+            if verdict == 'ok' and odd:
+                verdict, msg = 'unproven', f'{lib} is given unrecognised options {odd}'
+            if verdict == 'ok' and lib == 'yaml.load':
+                ld = next((k.value for k in c.keywords if k.arg == 'Loader'), c.args[1] if len(c.args) > 1 else None)
+                if ld is None or 'Safe' not in stmt_text(ld):
+                    verdict, msg = 'unproven', 'yaml.load without the safe loader'
+            insts.append(Inst(RULE, fname, construct, verdict, msg=msg, file=rel, line=c.lineno, props=props))
+        # the value handed over / handed back is the very object
+        construct = f'(viii) {fname}: content passes through unchanged'
+        if reading:
+            rets = [n for n in own_nodes(f.node) if isinstance(n, ast.Return) and n.value is not None]
+            ok = bool(rets)
+            why = ''
+            for r in rets:
+                v = r.value
+                node = cfg.node_of(r)
+                src = None
+                if isinstance(v, ast.Call) and v in libcalls:
+                    src = v
+                elif isinstance(v, ast.Name):
+                    defs = cfg.reaching(node, v.id)
+                    if len(defs) == 1 and defs[0].kind in ('stmt', 'with') and isinstance(defs[0].ast, ast.Assign) \
+                            and defs[0].ast.value in libcalls:
+                        src = defs[0].ast.value
+                        # no statement between definition and return touches it
+                        for x in own_nodes(f.node):
+                            if isinstance(x, (ast.Subscript, ast.Attribute)) and isinstance(x.ctx, (ast.Store, ast.Del)) \
+                                    and isinstance(x.value, ast.Name) and x.value.id == v.id:
+                                src = None
+                                why = f"'{v.id}' is modified before it is returned"
+                            if isinstance(x, ast.Call) and isinstance(x.func, ast.Attribute) and \
+                                    isinstance(x.func.value, ast.Name) and x.func.value.id == v.id and \
+                                    x.func.attr in ('pop', 'update', 'clear', 'setdefault', 'popitem'):
+                                src = None
+                                why = f"'{v.id}.{x.func.attr}(...)' modifies the loaded content"
+                if src is None:
+                    ok = False
+                    why = why or f"'{stmt_text(r, 70)}' does not return the library result itself"
+            insts.append(Inst(RULE, fname, construct, 'ok' if ok else 'unproven', msg=why, file=rel,
+                              line=f.node.lineno, props=props))
+        else:
+            pname = f.params[1] if len(f.params) > 1 else None
+            ok = True
+            why = ''
+            for c in libcalls:
+                a = c.args[0] if c.args else None
+                if not (isinstance(a, ast.Name) and a.id == pname and
+                        R.value_id(a, cfg.owner(c)) == ('param', pname)):
+                    ok = False
+                    why = f"'{stmt_text(c, 70)}' does not write the dictionary parameter itself"
+            insts.append(Inst(RULE, fname, construct, 'ok' if ok else 'unproven', msg=why, file=rel,
+                              line=f.node.lineno, props=props))
     return insts
 
 
